@@ -328,7 +328,7 @@ def explore(runner, bound: int, on_execution, max_executions: int | None = None)
     return count, capped
 
 
-def explore_layers(pool, run_one, params, bound: int, record, budget=None, cap_layer: int | None = None):
+def explore_layers(pool, run_one, params, bound: int, record, budget=None, cap_layer: int | None = None, menu_filter=None):
     """Level-synchronous version of explore() for a multiprocessing pool.
 
     run_one((params, choices)) -> (result, menus) must be a picklable top-level function.
@@ -356,6 +356,8 @@ def explore_layers(pool, run_one, params, bound: int, record, budget=None, cap_l
             if depth < bound:
                 for i in range(last + 1, len(menus)):
                     for alt in menus[i][1]:
+                        if menu_filter is not None and not menu_filter(depth + 1, alt):
+                            continue
                         c = dict(choices)
                         c[i] = alt
                         nxt.append((c, i))
